@@ -8,6 +8,8 @@ CONSTANTS
   CleanupInterval = 2
   Faults = TRUE
   WatermarkFirst = TRUE
+  RefCount = "pair"
+  Profiles = {"free"}
 INIT MBTInit
 NEXT MBTNext
 CHECK_DEADLOCK FALSE
